@@ -595,8 +595,9 @@ def constructors_batched(S, n, t, bshape, task_pos):
                 G = Gs[src(a)]
                 r = np.array([Ys[b + (i, a)] - Msym[src(a) + (i,)] for i in range(n)], dtype=object).reshape(n, 1)
                 z = tri_solve_lower(G, r)
-                tot = tot + (np.sum(z * z) + sum((sym_log(G[i, i]) for i in range(n)), Sym.const(0.0)) * Sym.const(2.0)
-                             + Sym.const(n * math.log(2 * math.pi))) * Sym.const(-0.5)
+                tot = tot + np.sum(z * z) + sum((sym_log(G[i, i]) for i in range(n)), Sym.const(0.0)) * Sym.const(2.0)
+            # (the normalising constant is ONE float in the library, (n t) log 2 pi: mirrored so that it is read as the same rational)
+            tot = (tot + Sym.const(n * t * math.log(2 * math.pi))) * Sym.const(-0.5)
             S.prove_eq(lp[b], tot, "%s.log_prob batch %s" % (name, list(b)))
 
 
